@@ -726,16 +726,22 @@ def r_after_fork(e, R):
             continue
         hooks = {v[1] for v in e.pt.ev(f, c.args[1]) if v[0] == "func"}
         hfs = [e.prog.funcs[q] for q in hooks if q in e.prog.funcs]
+        def positional(h):
+            """parameters left to the caller: a method reached through an instance (or a classmethod) has its first one bound."""
+            ps = list(h.params)
+            if h.cls is not None and "staticmethod" not in h.decorators and isinstance(c.args[1], ast.Attribute):
+                through_class = any(v[0] == "class" for v in e.pt.ev(f, c.args[1].value))
+                if "classmethod" in h.decorators or not through_class:
+                    ps = ps[1:]
+            return ps
         ok = bool(hfs) and len(hfs) == len(e.pt.ev(f, c.args[1])) and all(
-            len(h.params) - len([p for p in h.params if p in h.defaults]) <= nargs <= len(h.params) or h.vararg for h in hfs)
-        # a bound method of a loky object takes `self` implicitly
-        ok = ok and not any(h.cls is not None and isinstance(c.args[1], ast.Attribute) for h in hfs)
+            len([p for p in positional(h) if p not in h.defaults]) <= nargs <= len(positional(h)) or h.vararg for h in hfs)
         R.check(ok, "R-AFTER-FORK", f"{f.short}: the after-fork hook `{norm(c.args[1])[:40]}` is a function of one argument (the stdlib calls func(obj))", f.short,
                 norm(c)[:90], f"the hook `{norm(c.args[1])}` registered for after-fork is not a loky function taking exactly the registered object: the stdlib calls "
                 "`func(obj)` and swallows the TypeError, so the hook silently never runs in a forked child (a primitive held by the parent at fork time stays "
                 "'owned' in the child: an RLock is re-entered by another process, Condition.notify passes its ownership assertion)", e.loc(f, c))
         for h in hfs if ok else ():
-            p0 = h.params[0]
+            p0 = positional(h)[0] if positional(h) else h.vararg
             body_calls = [x for x in func_nodes(h) if isinstance(x, ast.Call) and isinstance(x.func, ast.Attribute)]
             if f.cls is not None and f.cls.qualname == f"{SY}:SemLock":
                 okb = any(x.func.attr == "_after_fork" and norm(x.func.value) == f"{p0}._semlock" and not x.args for x in body_calls) and norm(c.args[0]) == f.params[0]
